@@ -17,6 +17,7 @@ import (
 	oracletypes "github.com/elys-network/elys/x/oracle/types"
 	paramtypes "github.com/elys-network/elys/x/parameter/types"
 	perptypes "github.com/elys-network/elys/x/perpetual/types"
+	sstypes "github.com/elys-network/elys/x/stablestake/types"
 )
 
 func specDefault(t *rapid.T) WorldSpec {
@@ -577,9 +578,47 @@ var ProfileC04 = &Profile{
 	},
 }
 
+// c07ExtraOps: "depositing then immediately withdrawing never returns more than was deposited", on the chain: one
+// atomic transaction bonds x and unbonds the shares x buys at the rate in force – sent, by preference, by an account
+// that also owns a leveraged position (its bond walks through the tier / leveragelp hooks).
+func c07ExtraOps(h *History, g *G) []*Op {
+	if g.Int("c07/rt?", 0, 2) != 0 {
+		return nil
+	}
+	s := g.S
+	var cands []*Account
+	for _, p := range s.LPPositions {
+		if a := h.W.ByAddr[p.Address]; a != nil && !g.Busy[p.Address] {
+			cands = append(cands, a)
+		}
+	}
+	var u *Account
+	if len(cands) > 0 && g.Int("c07/rtowner", 0, 3) > 0 {
+		u = cands[g.Pick("c07/rtwho", len(cands))]
+	} else {
+		u = g.User()
+	}
+	if g.Busy[u.Addr.String()] {
+		return nil
+	}
+	sup := s.Supply.AmountOf(sstypes.GetShareDenom())
+	if !sup.IsPositive() || !s.SSParams.TotalValue.IsPositive() {
+		return nil
+	}
+	x := g.ModestAmount("c07/rtamt", sdkmath.NewInt(20_000_000_000))
+	shares := x.Mul(sup).Quo(s.SSParams.TotalValue) // floor(x / rate) at the committed rate
+	if !shares.IsPositive() {
+		return nil
+	}
+	g.Busy[u.Addr.String()] = true
+	h.Labels["c07-chain-roundtrips"]++
+	return []*Op{{Signer: u, Kind: "c07.roundtrip", Msg: &sstypes.MsgBond{Creator: u.Addr.String(), Amount: x},
+		More: []sdk.Msg{&sstypes.MsgUnbond{Creator: u.Addr.String(), Amount: shares}}}}
+}
+
 var ProfileC07 = &Profile{
 	MultiMsg: true,
-	ID:       "C07", Name: "vault-chain", MinBlocks: 5, MaxBlocks: 40, MaxTxs: 5, Spec: specLending, Check: CheckC07Chain, PreBlock: vaultGov,
+	ID:       "C07", Name: "vault-chain", MinBlocks: 5, MaxBlocks: 40, MaxTxs: 5, Spec: specLending, Check: CheckC07Chain, PreBlock: vaultGov, ExtraOps: c07ExtraOps,
 	Weights: withWeights(ProfileC06.Weights, map[string]int{"stablestake.bond": 14, "stablestake.unbond": 12, "leveragelp.open": 16}),
 	Gaps:    ProfileC06.Gaps,
 	Rule:    "history in which the vault share value had a long fractional part while lenders bonded and unbonded and a loan was granted",
